@@ -127,7 +127,8 @@ PROFILES = {
     ],
 }
 REPLAY_PROFILE = dict(_BASE, name="replay", depth=None, mode=True, restart=True, touch=True, adds=tuple(ADDS), opts=tuple(OPTIONS))
-VERSIONS = ["1.0.0", "1.0.1"]
+# versions that a sloppy comparison could identify: same release with and without a local build segment
+VERSIONS = ["1.0.0", "1.0.0+3.gabc1234", "1.0.1"]
 MODEL_NAME = "P.Main"
 T0 = 1_700_000_000
 _EXPECT = {}
